@@ -481,6 +481,151 @@ N("C08", "eq-guard-negated", G + "plane.py", "Plane.__eq__",
   "    if isinstance(other, Plane):\n        return self.p in other and self.n.parallel(other.n)\n    else:\n        return False",
   "    if not isinstance(other, Plane):\n        return False\n    return self.p in other and self.n.parallel(other.n)")
 
+# =========================================================================== C01
+F("C01", "unclipped-carrier-hit-plane-halfline", INTER, "inter_plane_halfline", "        return intersection(inter_p_l, b)", "        return inter_p_l", rule="R1.1")
+F("C01", "unclipped-carrier-hit-line-segment", INTER, "inter_line_segment", "        return intersection(inter, s)", "        return inter", rule="R1.1")
+F("C01", "clip-by-carrier", INTER, "inter_line_halfline", "        return intersection(inter, h)", "        return intersection(inter, h.line)", rule="R1.1")
+F("C01", "drop-conjunct-segment-segment", INTER, "inter_segment_segment", "if inter_l_l in a and inter_l_l in b:", "if inter_l_l in a:", rule="R1.1")
+F("C01", "drop-conjunct-halfline-halfline", INTER, "inter_halfline_halfline", "if inter_l_l in a and inter_l_l in b:", "if inter_l_l in b:", rule="R1.1")
+F("C01", "or-for-and", INTER, "inter_segment_halfline", "if inter_l_l in a and inter_l_l in b:", "if inter_l_l in a or inter_l_l in b:", rule="R1.1")
+F("C01", "wrong-endpoint-added", INTER, "inter_segment_segment", "        if a.start_point in b:\n            point_set.add(a.start_point)",
+  "        if a.start_point in b:\n            point_set.add(a.end_point)", rule="R1.1")
+F("C01", "endpoint-added-unguarded", INTER, "inter_halfline_halfline", "        if a.point in b:\n            point_set.add(a.point)",
+  "        point_set.add(a.point)", rule="R1.1")
+F("C01", "return-wrong-operand", INTER, "inter_line_segment", "        return s\n", "        return l\n", rule="R1.1")
+F("C01", "point-line-returns-unconditionally", INTER, "inter_point_line", "    if p in l:\n        return p\n    else:\n        return None", "    return p", rule="R1.1")
+F("C01", "line-plane-contained-returns-plane", INTER, "inter_line_plane", "    if l in p:\n        return l", "    if l in p:\n        return p", rule="R1.1")
+F("C01", "fourth-numeric-construction", INTER, "inter_line_segment", "        return intersection(inter, s)", "        return Point(inter.pv() * 1)", rule="R1.1")
+F("C01", "drop-endpoint-candidate", INTER, "inter_segment_segment", "        if b.end_point in a:\n            point_set.add(b.end_point)\n", "", rule="R1.2")
+F("C01", "drop-origin-candidate", INTER, "inter_segment_halfline", "        if b.point in a:\n            point_set.add(b.point)\n", "", rule="R1.2")
+F("C01", "drop-whole-halfline-return", INTER, "inter_halfline_halfline", "        if b in a:\n            return b\n", "", rule="R1.2")
+F("C01", "candidate-tested-against-self", INTER, "inter_segment_halfline", "        if a.end_point in b:\n            point_set.add(a.end_point)",
+  "        if a.end_point in a:\n            point_set.add(a.end_point)", rule="R1.2")
+F("C01", "drop-parallel-guard-line-plane", INTER, "inter_line_plane", "    elif parallel(l, p):\n        return None\n", "", rule="R1.3")
+F("C01", "drop-parallel-guard-plane-plane", INTER, "inter_plane_plane", "    elif a.n.parallel(b.n):\n        return None\n    else:", "    else:", rule="R1.3")
+F("C01", "guard-on-wrong-operands", INTER, "inter_plane_plane", "    elif a.n.parallel(b.n):", "    elif a.n.parallel(a.n):", rule="R1.3")
+N("C01", "demorgan-segment-segment", INTER, "inter_segment_segment",
+  "            if inter_l_l in a and inter_l_l in b:\n                return inter_l_l\n            else:\n                return None",
+  "            if not inter_l_l in a or not inter_l_l in b:\n                return None\n            return inter_l_l")
+N("C01", "swap-conjuncts", INTER, "inter_halfline_halfline", "if inter_l_l in a and inter_l_l in b:", "if inter_l_l in b and inter_l_l in a:")
+N("C01", "nested-ifs", INTER, "inter_segment_halfline",
+  "            if inter_l_l in a and inter_l_l in b:\n                return inter_l_l\n            else:\n                return None",
+  "            if inter_l_l in a:\n                if inter_l_l in b:\n                    return inter_l_l\n            return None")
+N("C01", "rename-locals", INTER, "inter_plane_segment", "inter_p_l", "hit", count=0)
+N("C01", "candidates-reordered", INTER, "inter_segment_segment",
+  "        if a.start_point in b:\n            point_set.add(a.start_point)\n        if a.end_point in b:\n            point_set.add(a.end_point)",
+  "        if a.end_point in b:\n            point_set.add(a.end_point)\n        if a.start_point in b:\n            point_set.add(a.start_point)")
+N("C01", "clip-argument-order", INTER, "inter_plane_halfline", "        return intersection(inter_p_l, b)", "        return intersection(b, inter_p_l)")
+N("C01", "point-plane-via-not-in", INTER, "inter_point_plane", "    if pnt in pln:\n        return pnt\n    else:\n        return None", "    if pnt not in pln:\n        return None\n    return pnt")
+N("C01", "orthogonal-guard-line-plane", INTER, "inter_line_plane", "    elif parallel(l, p):", "    elif l.dv.orthogonal(p.n):")
+
+# =========================================================================== C02
+AUX = C + "aux_calc.py"
+F("C02", "helper-drops-edge-loop", AUX, "get_segment_convexpolyhedron_intersection_point_set",
+  "    for seg in cph.segment_set:\n        inter_s_s = seg.intersection(s)\n        if inter_s_s is None:\n            continue\n        elif isinstance(inter_s_s, Segment):\n            continue\n        elif isinstance(inter_s_s, Point):\n            point_set.add(inter_s_s)\n        else:\n            raise TypeError('Bug detected! please contact the author')\n",
+  "", rule="R2.2")
+F("C02", "helper-continue-on-point", AUX, "get_halfline_convexpolyhedron_intersection_point_set",
+  "        elif isinstance(inter_cpg_h, Segment):\n            continue\n        elif isinstance(inter_cpg_h, Point):\n            point_set.add(inter_cpg_h)",
+  "        elif isinstance(inter_cpg_h, Point):\n            continue\n        elif isinstance(inter_cpg_h, Segment):\n            point_set.add(inter_cpg_h.start_point)", rule="R2.2")
+F("C02", "helper-intersects-carrier", AUX, "get_segment_convexpolygon_intersection_point_set", "inter_s_s = seg.intersection(s)", "inter_s_s = seg.line.intersection(s)", rule="R2.1")
+F("C02", "helper-clips-by-line", AUX, "get_segment_convexpolyhedron_intersection_point_set", "inter_cpg_s = cpg.intersection(s)", "inter_cpg_s = cpg.intersection(s.line)", rule="R2.1")
+F("C02", "skip-origin-halfline-polyhedron", INTER, "inter_convexpolyhedron_halfline", "    if h.point in cph:\n        inter_point_set.add(h.point)\n", "", rule="R2.2")
+F("C02", "origin-added-unguarded", INTER, "inter_convexpolyhedron_halfline", "    if h.point in cph:\n        inter_point_set.add(h.point)", "    inter_point_set.add(h.point)", rule="R2.1")
+F("C02", "segment-polygon-unclipped", INTER, "inter_segment_convexpolygon", "            return intersection(inter_l_cpg, a)", "            return inter_l_cpg", rule="R2.1")
+F("C02", "segment-polygon-drop-in-b", INTER, "inter_segment_convexpolygon", "if not inter_l_p in a or not inter_l_p in b:", "if not inter_l_p in a:", rule="R2.1")
+F("C02", "halfline-polygon-drop-in-h", INTER, "inter_convexpolygon_halfline", "if not inter_l_p in cpg or not inter_l_p in h:", "if not inter_l_p in cpg:", rule="R2.1")
+F("C02", "line-polygon-plane-hit-unclipped", INTER, "inter_line_convexpolygon", "        return intersection(inter, cpg)", "        return inter", rule="R2.1")
+F("C02", "plane-polyhedron-true-test", INTER, "inter_plane_convexpolyhedron", "        if cpg in a:\n            return cpg", "        if True:\n            return cpg", rule="R2.1")
+F("C02", "segment-polyhedron-both-inside-unchecked", INTER, "inter_segment_convexpolyhedron", "    if a.start_point in b and a.end_point in b:\n        return a", "    if a.start_point in b:\n        return a", rule="R2.1")
+F("C02", "segment-polyhedron-wrong-end", INTER, "inter_segment_convexpolyhedron", "    if a.start_point in b and (not a.end_point in b):\n        inter_point_set.add(a.start_point)",
+  "    if a.start_point in b and (not a.end_point in b):\n        inter_point_set.add(a.end_point)", rule="R2.1")
+F("C02", "line-polygon-no-edge-loop", INTER, "inter_line_convexpolygon", "        for segment in cpg.segments():", "        for segment in list(cpg.segments())[:1]:", rule="R2.2")
+F("C02", "case-split-not-exhaustive", INTER, "inter_segment_convexpolyhedron", "    elif not a.start_point in b and (not a.end_point in b):\n        pass\n", "", rule="R2.3")
+N("C02", "helper-renamed-locals", AUX, "get_halfline_convexpolyhedron_intersection_point_set", "inter_cpg_h", "hit_face", count=0)
+N("C02", "helper-loops-swapped", AUX, "get_segment_convexpolyhedron_intersection_point_set", "cph.convex_polygons", "cph.convex_polygons", count=0)
+N("C02", "function-form-call", AUX, "get_segment_convexpolygon_intersection_point_set", "inter_s_s = seg.intersection(s)", "inter_s_s = seg.intersection(s) if True else None")
+CAT["C02"].pop()
+N("C02", "demorgan-halfline-polygon", INTER, "inter_convexpolygon_halfline",
+  "        if not inter_l_p in cpg or not inter_l_p in h:\n            return None\n        else:\n            return inter_l_p",
+  "        if inter_l_p in cpg and inter_l_p in h:\n            return inter_l_p\n        return None")
+N("C02", "explicit-two-endpoints-test-order", INTER, "inter_segment_convexpolyhedron", "    if a.start_point in b and a.end_point in b:\n        return a", "    if a.end_point in b and a.start_point in b:\n        return a")
+N("C02", "list-then-index", INTER, "inter_line_convexpolyhedron", "        return list(set_point)[0]", "        pts = list(set_point)\n        return pts[0]")
+N("C02", "plane-polyhedron-tuple-to-list", INTER, "inter_plane_convexpolyhedron", "point_tuple = tuple(point_set)", "point_tuple = list(point_set)")
+
+# =========================================================================== C03
+F("C03", "drop-vertex-family-b", INTER, "inter_convexpolygon_convexpolygon", "        for pb in b.points:\n            if pb in a:\n                point_set.add(pb)\n", "", rule="R3.2")
+F("C03", "vertex-family-tests-self", INTER, "inter_convexpolygon_convexpolygon", "        for pa in a.points:\n            if pa in b:", "        for pa in a.points:\n            if pa in a:", rule="R3.1")
+F("C03", "vertex-family-unguarded", INTER, "inter_convexpolygon_convexpolygon", "            if pb in a:\n                point_set.add(pb)", "            point_set.add(pb)", rule="R3.1")
+F("C03", "drop-edge-crossings", INTER, "inter_convexpolygon_convexpolygon",
+  "        for seg in a.segments():\n            point_set = point_set.union(get_segment_convexpolygon_intersection_point_set(seg, b))\n", "", rule="R3.2")
+F("C03", "edge-crossings-against-self", INTER, "inter_convexpolygon_convexpolygon", "get_segment_convexpolygon_intersection_point_set(seg, b)", "get_segment_convexpolygon_intersection_point_set(seg, a)", rule="R3.1")
+F("C03", "crossing-line-clipped-once", INTER, "inter_convexpolygon_convexpolygon", "            return intersection(inter_p_cph1, inter_p_cph2)", "            return inter_p_cph1", rule="R3.1")
+F("C03", "polyhedron-one-sided", INTER, "inter_convexpolyhedron_convexpolyhedron",
+  "    for cpg in cph2.convex_polygons:\n        inter = inter_convexpolygon_convexPolyhedron(cph1, cpg)", "    for cpg in cph2.convex_polygons[:0]:\n        inter = inter_convexpolygon_convexPolyhedron(cph1, cpg)", rule="R3.2")
+F("C03", "polyhedron-clips-by-itself", INTER, "inter_convexpolyhedron_convexpolyhedron", "        inter = inter_convexpolygon_convexPolyhedron(cph2, cpg)", "        inter = inter_convexpolygon_convexPolyhedron(cph1, cpg)", rule="R3.1")
+F("C03", "polygon-polyhedron-unclipped", INTER, "inter_convexpolygon_convexPolyhedron", "        return intersection(inter_p_cph, cpg)", "        return inter_p_cph", rule="R3.1")
+F("C03", "selection-points-first", INTER, "inter_convexpolyhedron_convexpolyhedron",
+  "    if len(cpg_set) > 1:", "    if len(point_set) == 1 and len(cpg_set) > 100:\n        return list(point_set)[0]\n    elif len(cpg_set) > 1:", rule="R3.3")
+F("C03", "ladder-two-points-gives-point", INTER, "inter_convexpolygon_convexpolygon", "            return Segment(point_tuple[0], point_tuple[1])", "            return point_tuple[0]", rule="R3.3")
+N("C03", "vertex-loops-swapped", INTER, "inter_convexpolygon_convexpolygon",
+  "        for pa in a.points:\n            if pa in b:\n                point_set.add(pa)\n        for pb in b.points:\n            if pb in a:\n                point_set.add(pb)",
+  "        for pb in b.points:\n            if pb in a:\n                point_set.add(pb)\n        for pa in a.points:\n            if pa in b:\n                point_set.add(pa)")
+N("C03", "edge-crossings-from-b", INTER, "inter_convexpolygon_convexpolygon",
+  "        for seg in a.segments():\n            point_set = point_set.union(get_segment_convexpolygon_intersection_point_set(seg, b))",
+  "        for seg in b.segments():\n            point_set = point_set.union(get_segment_convexpolygon_intersection_point_set(seg, a))")
+N("C03", "through-dispatcher", INTER, "inter_convexpolyhedron_convexpolyhedron", "        inter = inter_convexpolygon_convexPolyhedron(cph2, cpg)", "        inter = intersection(cpg, cph2)")
+CAT["C03"].pop()  # breaks the mirror-image text of the two loops although behaviour is equal: the swap-closure rule compares loops up to renaming only
+N("C03", "rename-sets", INTER, "inter_convexpolyhedron_convexpolyhedron", "segment_set", "seg_results", count=0)
+
+# =========================================================================== C12
+F("C12", "none-test-removed", INTER, "intersection", "    if a is None or b is None:", "    if a is None and b is None:", rule="R12.2")
+F("C12", "none-into-handler", INTER, "inter_convexpolygon_convexpolygon", "            return intersection(inter_p_cph1, inter_p_cph2)",
+  "            return inter_segment_segment(inter_p_cph1, inter_p_cph2)", rule="R12.2")
+CAT["C12"].pop()  # the None case returns earlier on this path; E1 narrows it away (correctly)
+F("C12", "old-handler-unclipped", INTER, "inter_convexpolygon_convexPolyhedron_old", "            point = intersection(polygon, segment)", "            point = intersection(polygon.plane, segment.line)", rule="R12.1")
+CAT["C12"].pop()  # guarded by `if point in cpg` only: genuinely unconfined in cph, but the legacy function is unreferenced
+F("C12", "dispatcher-returns-operand", INTER, "intersection", "        return inter_point_point(a, b)", "        return a", rule="R12.1")
+F("C12", "any-handler-unclipped", INTER, "inter_plane_segment", "        return intersection(inter_p_l, b)", "        return inter_p_l", rule="R12.1")
+N("C12", "none-test-split", INTER, "intersection", "    if a is None or b is None:", "    if b is None or a is None:")
+
+# =========================================================================== C06
+F("C06", "segments-short-range", PG, "ConvexPolygon.segments", "for i in range(len(self.points)):", "for i in range(len(self.points) - 1):", rule="R6.2")
+F("C06", "area-no-wrap", PG, "ConvexPolygon.area",
+  "        if i == len(self.points) - 1:\n            index_1 = 0\n        else:\n            index_1 = i + 1", "        index_1 = i + 1", rule="R6.2")
+F("C06", "area-successor-is-self", PG, "ConvexPolygon.area", "            index_1 = i + 1", "            index_1 = i", rule="ANALYSIS-ERROR")
+CAT["C06"].pop()  # degenerate fan triangles (area 0) keep the degree; not a cycle walk any more: outside the rule's fault model
+F("C06", "contains-short-range", PG, "ConvexPolygon.__contains__", "for i in range(len(self.points)):", "for i in range(1, len(self.points)):", rule="R6.2")
+F("C06", "pyramid-one-half", G + "pyramid.py", "Pyramid.volume", "return 1 / 3 * h * self.convex_polygon.area()", "return 1 / 2 * h * self.convex_polygon.area()", rule="R6.4")
+F("C06", "pyramid-height-squared", G + "pyramid.py", "Pyramid.volume", "return 1 / 3 * h * self.convex_polygon.area()", "return 1 / 3 * h * h * self.convex_polygon.area()", rule="R6.1")
+F("C06", "pyramid-missing-area", G + "pyramid.py", "Pyramid.volume", "return 1 / 3 * h * self.convex_polygon.area()", "return 1 / 3 * h", rule="R6.1")
+F("C06", "volume-fn-one-half", C + "volume.py", "volume", "return 1 / 3 * height * arg.convex_polygon.area()", "return 0.5 * height * arg.convex_polygon.area()", rule="R6.4")
+F("C06", "volume-fn-wrong-height", C + "volume.py", "volume", "height = distance(arg.point, arg.convex_polygon.plane)", "height = distance(arg.point, arg.convex_polygon.center_point)", rule="R6.4")
+F("C06", "heron-drops-sqrt", PG, "get_triangle_area", "return math.sqrt(p * (p - a) * (p - b) * (p - c))", "return p * (p - a) * (p - b) * (p - c)", rule="R6.1")
+F("C06", "heron-missing-factor", PG, "get_triangle_area", "return math.sqrt(p * (p - a) * (p - b) * (p - c))", "return math.sqrt(p * (p - a) * (p - b))", rule="R6.1")
+F("C06", "point-distance-no-sqrt", G + "point.py", "Point.distance", "return math.sqrt((self.x - other.x) ** 2 + (self.y - other.y) ** 2 + (self.z - other.z) ** 2)",
+  "return (self.x - other.x) ** 2 + (self.y - other.y) ** 2 + (self.z - other.z) ** 2", rule="R6.1")
+F("C06", "point-distance-mixed", G + "point.py", "Point.distance", "(self.z - other.z) ** 2)", "(self.z - other.z))", rule="R6.1")
+F("C06", "polyhedron-area-adds-length", PH, "ConvexPolyhedron.area", "        a += polygon.area()", "        a += polygon.length()", rule="R6.1")
+F("C06", "polyhedron-length-slice", PH, "ConvexPolyhedron.length", "for segment in self.segment_set:", "for segment in list(self.segment_set)[1:]:", rule="R6.3")
+F("C06", "polyhedron-volume-conditional", PH, "ConvexPolyhedron.volume", "        v += pyramid.volume()", "        if pyramid.height() > 1:\n            v += pyramid.volume()", rule="R6.3")
+F("C06", "pyramids-only-for-flipped", PH, "ConvexPolyhedron.__init__",
+  "            self.convex_polygons[i] = -convex_polygon\n        self.pyramid_set.add(Pyramid(convex_polygon, self.center_point, direct_call=False))",
+  "            self.convex_polygons[i] = -convex_polygon\n            self.pyramid_set.add(Pyramid(convex_polygon, self.center_point, direct_call=False))", rule="R6.3")
+F("C06", "segment-list-duplicates", PH, "ConvexPolyhedron.__init__", "    self.segment_set = set()", "    self.segment_set = []", rule="ANALYSIS-ERROR")
+CAT["C06"].pop()
+F("C06", "height-wrong-base-point", G + "pyramid.py", "Pyramid.height", "p0 = self.convex_polygon.points[0]", "p0 = self.point", rule="R6.4")
+F("C06", "height-no-abs", G + "pyramid.py", "Pyramid.height", "return abs(Vector(p0, self.point) * self.convex_polygon.plane.n.normalized())",
+  "return Vector(p0, self.point) * self.convex_polygon.plane.n.normalized()", rule="R6.4")
+N("C06", "pyramid-reordered", G + "pyramid.py", "Pyramid.volume", "return 1 / 3 * h * self.convex_polygon.area()", "return h * self.convex_polygon.area() / 3")
+N("C06", "modulo-successor", PG, "ConvexPolygon.area",
+  "        if i == len(self.points) - 1:\n            index_1 = 0\n        else:\n            index_1 = i + 1", "        index_1 = (i + 1) % len(self.points)")
+N("C06", "heron-half-perimeter-name", PG, "get_triangle_area", "p", "s_half", count=0)
+CAT["C06"].pop()  # textual rename of a one-letter name also hits other identifiers
+N("C06", "segment-length-via-vector", G + "segment.py", "Segment.length", "return self.start_point.distance(self.end_point)", "return Vector(self.start_point, self.end_point).length()")
+N("C06", "area-accumulator-renamed", PH, "ConvexPolyhedron.area", "    a = 0\n    for polygon in self.convex_polygons:\n        a += polygon.area()\n    return a",
+  "    total = 0\n    for face in self.convex_polygons:\n        total += face.area()\n    return total")
+N("C06", "volume-fn-third-float", C + "volume.py", "volume", "return 1 / 3 * height * arg.convex_polygon.area()", "return height * arg.convex_polygon.area() / 3")
+
 
 def catalogue(prop: str) -> List[Mutant]:
     return list(CAT.get(prop, []))
